@@ -27,6 +27,7 @@ type c10Case struct {
 	MapPath string       `json:"mappath,omitempty"`
 	Disk    bool         `json:"disk,omitempty"`
 	Reuse   bool         `json:"reuse,omitempty"` // one filtered FS value walked repeatedly and re-entrantly
+	Follow  []string     `json:"follow,omitempty"` // FollowPaths (the trees have no symlinks: each path stands for itself)
 }
 
 func (c c10Case) String() string {
@@ -39,6 +40,9 @@ func (c c10Case) String() string {
 	}
 	if c.Reuse {
 		s += " reuse"
+	}
+	if len(c.Follow) > 0 {
+		s += fmt.Sprintf(" follow=%q", c.Follow)
 	}
 	return s
 }
@@ -245,7 +249,7 @@ type c10Result struct {
 
 func walkFiltered(c c10Case, under fsutil.FS) (*c10Result, error) {
 	res := &c10Result{stats: map[string]*types.Stat{}, mapped: map[string]bool{}}
-	opt := &fsutil.FilterOpt{IncludePatterns: c.Include, ExcludePatterns: c.Exclude}
+	opt := &fsutil.FilterOpt{IncludePatterns: c.Include, ExcludePatterns: c.Exclude, FollowPaths: c.Follow}
 	if c.MapOp != "" {
 		opt.Map = func(p string, st *types.Stat) fsutil.MapResult {
 			res.mapped[p] = true
@@ -379,7 +383,26 @@ func judgeC10(c c10Case) (string, string) {
 			return "map-rewrite-lost", fmt.Sprintf("%q reported with uid=%d mode=%o, the map function set uid=4242 mode=0751", c.MapPath, st.Uid, st.Mode&0777)
 		}
 	}
-	kept, err := naiveKept(c.Tree, c.Include, c.Exclude)
+	// follow paths are include patterns appended after the caller's (so they override earlier exceptions); paths
+	// nested in another followed path are redundant
+	inc := c.Include
+	if len(c.Follow) > 0 {
+		inc = append([]string{}, c.Include...)
+		fl := append([]string{}, c.Follow...)
+		sortStrings(fl)
+		for _, f := range fl {
+			nested := false
+			for _, g := range fl {
+				if g != f && strings.HasPrefix(f, g+"/") {
+					nested = true
+				}
+			}
+			if !nested {
+				inc = append(inc, f)
+			}
+		}
+	}
+	kept, err := naiveKept(c.Tree, inc, c.Exclude)
 	if err != nil {
 		return "infra", err.Error()
 	}
@@ -389,7 +412,7 @@ func judgeC10(c c10Case) (string, string) {
 		return "", ""
 	}
 	// three-way verdict: is the disagreement the incremental matcher's?
-	ck, err := chainKept(c.Tree, c.Include, c.Exclude)
+	ck, err := chainKept(c.Tree, inc, c.Exclude)
 	if err != nil {
 		return "infra", err.Error()
 	}
@@ -478,6 +501,17 @@ func runC10(r *evid.Run) {
 		}
 		for _, t := range trees {
 			cases = append(cases, c10Case{Tree: t, Include: l}, c10Case{Tree: t, Exclude: l})
+		}
+	}
+	// follow paths together with include lists (exceptions included): the followed paths are appended to the list
+	for _, t := range trees {
+		for _, fl := range [][]string{{"a/b/c"}, {"a/b"}, {"b/a"}, {"ab/c", "a/b/c"}, {"a", "a/b"}, {"nope"}} {
+			for _, inc := range lists {
+				cases = append(cases, c10Case{Tree: t, Include: inc, Follow: fl})
+			}
+			for _, exc := range patternLists(1, c10Patterns) {
+				cases = append(cases, c10Case{Tree: t, Exclude: exc, Follow: fl}, c10Case{Tree: t, Include: []string{"b"}, Exclude: exc, Follow: fl})
+			}
 		}
 	}
 	// on disk (lazy stats): lists of length <=1 on both sides, every tree
